@@ -33,10 +33,12 @@ NOT CHECKED:
     this property).
   * the order of lines in str(g).
 """
+import collections
 from harness import lib
 from harness.props import _hist as H
 
 ID = "C05"
+STATS = collections.Counter()   # why histories stop / how much is compared (diagnostics only)
 RULE = ("random histories (4-25 steps quick, up to 60 thorough) of legal calls (4% meant to fail) on GFA1 and GFA2 "
         "graphs over 4-6 segment names: all record types, lines arriving before the lines they mention, fan-out > 1 "
         "in every collection, nested and multi-line groups, rm by name and by instance, disconnect, rename, set/delete "
@@ -98,13 +100,16 @@ def oracle(case):
         if tgt is not None and step[0] != "rm":
             r = lib.outcome(H.resolve, g, tgt)
             if r[0] != "ok":
+                STATS["stop:resolve-raises"] += 1
                 return []
             line = r[1]
             if line is None:
                 if m.find(tgt) is None:
                     continue  # nothing to act on, on either side
+                STATS["stop:target-only-in-model"] += 1
                 return []
             if line.virtual:
+                STATS["stop:target-virtual"] += 1
                 return []
             if tgt.startswith("@"):
                 sel = H.norm_text(str(line), v)
@@ -116,11 +121,15 @@ def oracle(case):
             return ["foreign-exception: %s raises %s [step %d %r]" % (H.step_kind(step), r[1], k, step)]
         if r[0] == "gerr":
             if str(g) != before:
+                STATS["stop:rejected-call-changed-text"] += 1
                 return []  # a rejected call that changed the Gfa: C08
+            STATS["rejected:" + ("model-ok" if m.copy().apply(step, sel) in ("ok", "noop") else "model-illegal")] += 1
             continue
         st = m.apply(step, sel)
         if st not in ("ok", "noop"):
+            STATS["stop:" + st] += 1
             return []
+        STATS["compared"] += 1
         try:
             got = real_text(g, v, True)
         except Exception as e:
@@ -132,6 +141,7 @@ def oracle(case):
             txt = m.text()
             if txt:
                 rr = lib.outcome(gfapy.Gfa, txt, version=v, vlevel=case.get("vlevel", 1))
+                STATS["reparse:" + (rr[0] if rr[0] != "ok" else ("ok" if not H.has_virtual(rr[1]) else "virtual"))] += 1
                 if rr[0] == "ok" and not H.has_virtual(rr[1]):
                     got2 = real_text(g, v, False)
                     exp2 = real_text(rr[1], v, False)
